@@ -212,10 +212,30 @@ def _ph_vcs(p, pos, m):
     k = z3.Int("ph.k")
     defs = [z3.ForAll([k], p2[k] == z3.If(p[k] == m, y, p[k]), patterns=[p2[k]]),
             pos2.arr == z3.Store(pos.arr, y, pos[m])]
+    base = [ge(m, 0), ph_hyp(p, pos, m + 1)] + defs
+    ih = ph_concl(p2, pos2, m)
+    # explicit instances (each is itself an obligation) so that the step does not depend on quantifier search
+    h1 = conj(eq(pos2[y], pos[m]), eq(pos[y], m), le(0, y), le(y, m))
+    h2 = implies(ne(y, m), conj(le(0, pos2[y]), lt(pos2[y], m), eq(p2[pos2[y]], y)))
+    h3 = implies(ne(y, m), conj(le(0, pos[m]), lt(pos[m], m), eq(p[pos[m]], m)))
+    x = z3.Int("ph.x")
+    inrange = conj(le(0, x), le(x, m))
+    g_y = implies(conj(inrange, eq(x, y)), conj(le(0, pos[x]), le(pos[x], m), eq(p[pos[x]], x)))
+    g_m = implies(conj(inrange, eq(x, m)), conj(le(0, pos[x]), le(pos[x], m), eq(p[pos[x]], x)))
+    h4 = implies(conj(inrange, ne(x, y), ne(x, m)),
+                 conj(eq(pos2[x], pos[x]), le(0, pos2[x]), lt(pos2[x], m), eq(p2[pos2[x]], x)))
+    g_o = implies(conj(inrange, ne(x, y), ne(x, m)), conj(le(0, pos[x]), le(pos[x], m), eq(p[pos[x]], x)))
     return [
         ("base", [eq(m, 0)], ph_concl(p, pos, m)),
-        ("step_hyp", [ge(m, 0), ph_hyp(p, pos, m + 1)] + defs, ph_hyp(p2, pos2, m)),
-        ("step", [ge(m, 0), ph_hyp(p, pos, m + 1)] + defs + [ph_concl(p2, pos2, m)], ph_concl(p, pos, m + 1)),
+        ("step_hyp", base, ph_hyp(p2, pos2, m)),
+        ("step_h1", base, h1),
+        ("step_h2", base + [ih, h1], h2),
+        ("step_h3", base + [ih, h1, h2], h3),
+        ("step_case_y", base + [h1], g_y),
+        ("step_case_m", base + [h1, h2, h3], g_m),
+        ("step_h4", base + [ih, h1], h4),
+        ("step_case_other", base + [h1, h4], g_o),
+        ("step", base + [z3.ForAll([x], z3.And(g_y, g_m, g_o), patterns=[pos[x]])], ph_concl(p, pos, m + 1)),
     ]
 
 
